@@ -6,12 +6,103 @@
    followed by one add per element of [recs] in order (rejected adds included: they leave the
    tree unchanged, see C20); [accepted apex cls recs] is the flat list of the records the
    specification says are accepted.  [spec_lookup*] never looks at a tree. *)
-From QV Require Import Base.Res Base.Octets Model.ZoneTree Spec.ZoneLookupS Proofs.ZoneTopP Proofs.ZoneSpellP.
+From QV Require Import Base.Res Base.Octets Model.ZoneTree Spec.ZoneLookupS Proofs.ZoneTopP Proofs.ZoneSpellP
+  Model.ZoneReal Spec.ZoneRealS Proofs.ZoneRealP.
+From QV Require Model.RdataM Spec.RdataEqS.
 
 (* the shared runner (Extract/ExZone.v) also extracts the validation model: keep it in this cone so
    that `make Props/...vo` rebuilds everything the extraction loads *)
 From QV Require Model.ZoneValid Spec.ZoneValidS Model.RdataBuf.
 
+
+(* ================================================================================================
+   The theorems for the REAL Rdata::equals.
+   Model side: [req_real] = Model/RdataM.v [equals], the model of Rdata::equals that C19 is about.
+   Specification side: [spec_req] = Spec/RdataEqS.v [spec_equals], the RFC characterisation (octet
+   equality, except that names embedded in the RDATA of the RFC 1035 name-bearing types, SRV in class IN
+   and A in class CH compare without ASCII case when both RDATA are valid for the type's format).
+   The only hypothesis about the records is that every RDATA is an octet string (each element < 256:
+   the u8 type), which is what C19's theorems are about.  Nothing about Rdata::equals is assumed. *)
+
+(* what the instance is: on octet strings the model of Rdata::equals always returns a boolean (the
+   [false] that req_real gives to a Panic/Err of [equals] is never used), and that boolean is the
+   characterisation *)
+Theorem c06_req_real_is_equals : forall c t a b, wf_bytes a -> wf_bytes b ->
+  RdataM.equals c t a b = Ok (req_real c t a b) /\ req_real c t a b = RdataEqS.spec_equals c t a b.
+Proof. intros c t a b Ha Hb. split; [apply equals_req_real|apply req_real_spec]; assumption. Qed.
+
+Theorem c06_build_total_real : forall apex cls wide recs, Forall wf_record recs ->
+  exists z, zone_build req_real (zone_new apex cls wide) recs = Some z.
+Proof. exact real_build_total. Qed.
+
+Theorem c06_lookup_refines_real : forall apex cls wide recs z, Forall wf_record recs ->
+  zone_build req_real (zone_new apex cls wide) recs = Some z ->
+  forall qn ty unchecked sbc, (unchecked = true -> in_zone apex qn = true) ->
+  exists r, zone_lookup z qn ty unchecked sbc = Ok r /\
+            spec_lookup spec_req apex cls (accepted apex cls recs) qn ty unchecked sbc = Some (norm_lookup r).
+Proof. exact real_lookup_refines. Qed.
+
+Theorem c06_lookup_addrs_refines_real : forall apex cls wide recs z, Forall wf_record recs ->
+  zone_build req_real (zone_new apex cls wide) recs = Some z ->
+  forall qn unchecked sbc, (unchecked = true -> in_zone apex qn = true) ->
+  exists r, zone_lookup_addrs z qn unchecked sbc = Ok r /\
+            spec_lookup_addrs spec_req apex cls (accepted apex cls recs) qn unchecked sbc = Some (norm_addrs r).
+Proof. exact real_lookup_addrs_refines. Qed.
+
+Theorem c06_lookup_all_refines_real : forall apex cls wide recs z, Forall wf_record recs ->
+  zone_build req_real (zone_new apex cls wide) recs = Some z ->
+  forall qn unchecked sbc, (unchecked = true -> in_zone apex qn = true) ->
+  exists r, zone_lookup_all z qn unchecked sbc = Ok r /\
+            spec_lookup_all spec_req apex cls (accepted apex cls recs) qn unchecked sbc = Some (norm_all r).
+Proof. exact real_lookup_all_refines. Qed.
+
+Theorem c06_lookup_exact_real : forall apex cls wide recs z, Forall wf_record recs ->
+  zone_build req_real (zone_new apex cls wide) recs = Some z ->
+  forall qn ty unchecked sbc, (unchecked = true -> in_zone apex qn = true) ->
+  exists r', spec_lookup spec_req apex cls (accepted apex cls recs) qn ty unchecked sbc = Some r' /\
+             zone_lookup z qn ty unchecked sbc = Ok (spell_lookup apex (accepted apex cls recs) r').
+Proof. exact real_lookup_exact. Qed.
+
+Theorem c06_lookup_addrs_exact_real : forall apex cls wide recs z, Forall wf_record recs ->
+  zone_build req_real (zone_new apex cls wide) recs = Some z ->
+  forall qn unchecked sbc, (unchecked = true -> in_zone apex qn = true) ->
+  exists r', spec_lookup_addrs spec_req apex cls (accepted apex cls recs) qn unchecked sbc = Some r' /\
+             zone_lookup_addrs z qn unchecked sbc = Ok (spell_addrs apex (accepted apex cls recs) r').
+Proof. exact real_lookup_addrs_exact. Qed.
+
+Theorem c06_lookup_all_exact_real : forall apex cls wide recs z, Forall wf_record recs ->
+  zone_build req_real (zone_new apex cls wide) recs = Some z ->
+  forall qn unchecked sbc, (unchecked = true -> in_zone apex qn = true) ->
+  exists r', spec_lookup_all spec_req apex cls (accepted apex cls recs) qn unchecked sbc = Some r' /\
+             zone_lookup_all z qn unchecked sbc = Ok (spell_all apex (accepted apex cls recs) r').
+Proof. exact real_lookup_all_exact. Qed.
+
+(* Non-vacuity with the real equality: apex "c."; c. NS ns.c. / NS NS.C. (one RDATA: names compare
+   without case), c. NS "ns.c." + junk octet / NS "NS.C." + junk octet (two RDATAs: malformed RDATA is
+   compared octet-wise), MX 10 mx.c. / MX 10 MX.c. (one) / MX 20 mx.c. (another); the lookups return
+   the de-duplicated RRsets and the specification agrees. *)
+Example c06_example_real :
+  let c := [99%N] in
+  let ns := [2; 110; 115; 1; 99; 0]%N in let nsU := [2; 78; 83; 1; 67; 0]%N in
+  let mx p l := [0; p; 2; l; 120; 1; 99; 0]%N in
+  let recs :=
+    [ mk_record [c] 2 1 3600 ns; mk_record [c] 2 1 3600 nsU;
+      mk_record [c] 2 1 3600 (ns ++ [9%N]); mk_record [c] 2 1 3600 (nsU ++ [9%N]);
+      mk_record [c] 15 1 3600 (mx 10%N 109%N); mk_record [c] 15 1 3600 (mx 10%N 77%N); mk_record [c] 15 1 3600 (mx 20%N 109%N) ] in
+  Forall wf_record recs /\
+  exists z, zone_build req_real (zone_new [c] 1 false) recs = Some z /\
+    zone_lookup z [c] 2 false false = Ok (LFound (3600%N, [ns; ns ++ [9%N]; nsU ++ [9%N]]) None) /\
+    zone_lookup z [c] 15 false false = Ok (LFound (3600%N, [mx 10%N 109%N; mx 20%N 109%N]) None) /\
+    spec_lookup spec_req [c] 1 (accepted [c] 1 recs) [c] 2 false false
+      = Some (LFound (3600%N, [ns; ns ++ [9%N]; nsU ++ [9%N]]) None).
+Proof.
+  cbv zeta. split.
+  - repeat constructor; apply wf_bytesb_spec; reflexivity.
+  - eexists. split; [vm_compute; reflexivity|]. vm_compute. repeat split.
+Qed.
+
+(* ================================================================================================
+   Parametric library versions: any RDATA equality that is transitive per (class, type). *)
 Definition req_transitive (req : N -> N -> bytes -> bytes -> bool) : Prop :=
   forall cls ty a b c, req cls ty a b = true -> req cls ty b c = true -> req cls ty a c = true.
 
@@ -123,6 +214,14 @@ Example c06_example :
       = Some (LReferral [b; a] (3600%N, [ns])).
 Proof. cbv zeta. eexists. split; [vm_compute; reflexivity|]. vm_compute. repeat split. Qed.
 
+Print Assumptions c06_req_real_is_equals.
+Print Assumptions c06_build_total_real.
+Print Assumptions c06_lookup_refines_real.
+Print Assumptions c06_lookup_addrs_refines_real.
+Print Assumptions c06_lookup_all_refines_real.
+Print Assumptions c06_lookup_exact_real.
+Print Assumptions c06_lookup_addrs_exact_real.
+Print Assumptions c06_lookup_all_exact_real.
 Print Assumptions c06_build_total.
 Print Assumptions c06_lookup_refines.
 Print Assumptions c06_lookup_addrs_refines.
